@@ -50,6 +50,11 @@ def main(tier, seed):
         sigma = list(range(n)); rng.shuffle(sigma)          # position p of the permuted run holds original sample sigma[p]
         Xp = [X[sigma[p]] for p in range(n)] + X[n:]
         itp = Instance("feat", Xp, [labels[sigma[p]] for p in range(n)], metric_matrix(metric, Xp), 0, m, metric)
+        if i % 3 == 1:
+            # the permuted run goes through a pre-computed matrix with index arrays (rows scattered in a larger matrix):
+            # the same weights, so nothing observable may change
+            itp = Instance("mat", None, itp.labels, itp.D, 0, m, None)
+            stats["perm_via_matrix"] = stats.get("perm_via_matrix", 0) + 1
         try:
             o1, s1 = impl_fit(it); p1, _ = impl_predict(o1, it)
             o2, s2 = impl_fit(itp); p2, _ = impl_predict(o2, itp)
